@@ -289,6 +289,15 @@ def setters(m, run):
 
 # ---------------------------------------------------------------------------------------------- PP1
 def per_point_index(m, run):
+    from .. import skel_drivers as _sd
+    n0 = len(run.obs)
+    _sd.pp2(m, run)
+    ok = all(o.ok for o in run.obs[n0:])
+    with run.corroborating(ok, 'PP2', rules=('PP1.per-point-index',)):
+        _per_point_index_syntactic(m, run)
+
+
+def _per_point_index_syntactic(m, run):
     fi = m.cls('CPGen', 'GridWeighted').getters.get('grid')
     if fi is None:
         raise AnalysisError('CPGen.GridWeighted.grid getter not found')
